@@ -928,7 +928,11 @@ def write_crate(dirname, pkg, main_rs, bins=None):
     os.makedirs(os.path.join(d, "src", "bin"), exist_ok=True)
     os.makedirs(os.path.join(d, ".cargo"), exist_ok=True)
     shutil.copy(os.path.join(HARNESS, "Cargo.lock"), os.path.join(d, "Cargo.lock"))
-    shutil.copy(os.path.join(HARNESS, ".cargo", "config.toml"), os.path.join(d, ".cargo", "config.toml"))
+    # same flags as the harness; the (relative) target-dir of the harness config is made absolute so that dust_dds is shared
+    cfg = open(os.path.join(HARNESS, ".cargo", "config.toml")).read()
+    cfg = re.sub(r'target-dir\s*=\s*"[^"]*"', 'target-dir = "%s"' % os.path.join(os.path.dirname(HARNESS), ".build", "harness"), cfg)
+    with open(os.path.join(d, ".cargo", "config.toml"), "w") as f:
+        f.write(cfg)
     repo = repo_dir()
     prof = open(os.path.join(HARNESS, "Cargo.toml")).read().split("[profile.dev]")[1]
     with open(os.path.join(d, "Cargo.toml"), "w") as f:
